@@ -5,8 +5,8 @@ harness("h_c10", ["harness/h_c10.cc"], libs=("xtp",))
 
 PROPS["C10"] = dict(
     level="fault_enumeration",
-    parts=[rc("h_c10", quick=dict(cases=640, procs=16, budget_s=900),
-              thorough=dict(cases=24000, procs=16, args=["--enum", "4"], budget_s=3300))],
+    parts=[rc("h_c10", quick=dict(cases=1280, procs=16, args=["--enum", "1"], budget_s=900),
+              thorough=dict(cases=24000, procs=16, args=["--enum", "5"], budget_s=3300))],
     rule=("histories: one case = job list (1..40 jobs, statuses AVAILABLE/COMPLETE/FAILED/ASSIGNED with hosts) x 1..3 worker processes "
           "(1..3 threads, cache 1..8, maxjobs unlimited or < jobs, thread-schedule choices) x restart pattern x inter-process choice "
           "sequence x optional crash (process, n-th file write, byte budget). Worker processes are forked from the harness, run the real "
@@ -20,8 +20,8 @@ PROPS["C10"] = dict(
           "writes of a process for four fixed two-process histories."
           " Jobs may fail in given processes (fail mask): a FAILED result of a live process is re-opened by a concurrently running process "
           "whose restart pattern names stat(FAILED); then the job is executed again and the LAST execution's result must be the final record "
-          "(per-process restart patterns, may/must oracle for the first execution). thorough also runs two histories in which a process is kept "
-          "inside the critical section for 32 s while another waits for the file lock."),
+          "(per-process restart patterns, may/must oracle for the first execution). both tiers run two histories in which a process is kept "
+          "inside the critical section for 32 s while another waits for the file lock (a lock that gives up after a while still has to exclude)."),
     assumptions=COMMON_ASSUME + [
         "crash = process death after byte k of a sequential write (no torn sectors / page-cache reordering)",
         "a process that does not report SYNC_LOCKED within 300 ms while another is inside is treated as blocked on the file lock; the timeout can only hide a violation, never invent one",
